@@ -702,7 +702,10 @@ fn run_case(out: &mut Out, st: &mut Stats, stream: &str, eng: Eng, gd: &GenDict,
         }
         Err(_) => format!("panic:{}", panic_class(&LAST_PANIC.with(|m| m.borrow().clone()))),
     };
-    out.rec(&format!("conv {} {} {} {} {} {} {} => {}", eng.name(), stream, table, enc_symbols(comp), enc_gaps(comp), sels, kp, rhs));
+    // records of invalid compositions (F31) carry the component tag `convx`: the model is expected to
+    // predict them too, but they are outside the theorems' hypotheses and hence outside the scope of C03
+    let tag = if stream == "invalidsel" { "convx" } else { "conv" };
+    out.rec(&format!("{} {} {} {} {} {} {} {} => {}", tag, eng.name(), stream, table, enc_symbols(comp), enc_gaps(comp), sels, kp, rhs));
     st.inc(&format!("{}.{}", stream, eng.name()));
     st.inc(&format!("dict.{}", gd.kind));
     match &result {
@@ -782,7 +785,7 @@ fn main() {
     let mut out = Out::new();
     let mut rng = Rng::new(seed_from_env());
     let thorough = tier_is_thorough();
-    let n_dicts: usize = if thorough { 30000 } else { 1500 };
+    let n_dicts: usize = if thorough { 80000 } else { 5000 };
     let comps_per_dict = 4;
     let max_len = if thorough { 24 } else { 12 };
     let mut st = Stats { m: BTreeMap::new() };
